@@ -360,11 +360,13 @@ pub fn run_behaviour_sink(beh: &Value, out: &mut Out, sink: &mut PacketSink) {
                     continue;
                 }
                 let mut desc = ctx.objs[o - 1].desc.take().unwrap();
+                let mut used_h: i64 = -1;
                 if name == "addtoi" {
                     let h = a[2].as_u64().unwrap() as usize;
                     if h < handles.len() {
                         if let Some(toi) = handles[h].take() {
                             desc.set_toi(toi);
+                            used_h = h as i64;
                         }
                     }
                 }
@@ -380,6 +382,7 @@ pub fn run_behaviour_sink(beh: &Value, out: &mut Out, sink: &mut PacketSink) {
                     }
                 };
                 let mut ev = ev;
+                ev["h"] = json!(used_h);
                 if !dead {
                     ev.as_object_mut().unwrap().insert("st".into(), projection(&mut sender, &ctx, &added));
                 }
@@ -494,12 +497,36 @@ pub fn run_behaviour_sink(beh: &Value, out: &mut Out, sink: &mut PacketSink) {
                     }
                 }
             }
-            "droptoi" => {
+            "cycle" => {
+                // n times: allocate a TOI and drop it at once
+                let n = a[1].as_u64().unwrap();
+                for _ in 0..n {
+                    let r = catch(|| sender.allocate_toi());
+                    match r {
+                        Err(m) => {
+                            out.emit(&json!({"ev":"ad","t":t,"res":"panic","m":m}));
+                            dead = true;
+                            break;
+                        }
+                        Ok(toi) => {
+                            let v = toi.get();
+                            drop(toi);
+                            out.emit(&json!({"ev":"ad","t":t,"res":"ok","toix":format!("{:x}", v)}));
+                        }
+                    }
+                }
+            }
+            "droptoi" | "droptoi_t" => {
                 let h = a[1].as_u64().unwrap() as usize;
                 if h < handles.len() && handles[h].is_some() {
                     let toi = handles[h].take().unwrap();
                     let v = toi.get();
-                    let r = catch(move || drop(toi));
+                    let r = if name == "droptoi_t" {
+                        // the handle is moved to and dropped on another thread
+                        std::thread::spawn(move || drop(toi)).join().map_err(|_| "panic".to_string())
+                    } else {
+                        catch(move || drop(toi))
+                    };
                     out.emit(&json!({"ev":"droptoi","t":t,"h":h,"res":if r.is_ok() {"ok"} else {"panic"},"toi":rfcdec::small(v),"toix":format!("{:x}", v)}));
                 }
             }
@@ -512,6 +539,12 @@ pub fn run_behaviour_sink(beh: &Value, out: &mut Out, sink: &mut PacketSink) {
         out.emit(&json!({"ev":"dead","t":t}));
     }
     let _ = catch(move || drop(sender));
+}
+
+fn _assert_send<T: Send>() {}
+fn _sender_and_toi_are_send() {
+    _assert_send::<Sender>();
+    _assert_send::<Box<Toi>>();
 }
 
 pub fn replay_sender(args: &Args) {
